@@ -631,10 +631,50 @@ def check_C16(ctx):
                                    "of attach_alias_locations_if_missing), its use site the alias / merge source"])
 
 
+# ------------------------------------------------------------------------------------------------
+# C17 (Snippet)
+# ------------------------------------------------------------------------------------------------
+def check_C17(ctx):
+    q = ctx.quick()
+    cases = ctx.path("cases.ndjson")
+    run_mc(ctx, "MC_Snippet", dict(MaxLen=6 if q else 9, Radii=[1, 2, 3]), ["InvErrLine", "InvContext", "InvWidth", "EmitCase"], workers=8,
+           timeout=3000, cases_out=cases, label="MC_Snippet")
+    ctx.exhaustive = True
+    recs = ctx.path("recs.ndjson")
+    st = run_vh(ctx, ["c17", "--cases", cases, "--out", recs, "--random", 150 if q else 4000, "--seed", ctx.seed], timeout=6000)
+    ctx.evaluations += st["records"]
+    ctx.distinct_nontrivial += st["nontrivial"]
+    ctx.samples += st["samples"]
+    for k in ("renders", "miette", "with_window", "dual", "cropped", "families"):
+        ctx.notes[k] = st[k]
+    mism = run_tv(ctx, "TV_Snippet", recs, timeout=6000, shards=14)
+    def v(d):
+        return d.get("verdict", "") if isinstance(d, dict) else ""
+    matchers = {
+        "C17-lone-cr-line-breaks": lambda rec, d: v(d).startswith("lone-cr:"),
+        "C17-context-line-left-of-window": lambda rec, d: v(d) == "context-line-left-of-window-shown-uncropped",
+    }
+    classify_mismatches(ctx, mism, recs, matchers, "rendered report breaks the contract of Snippet.tla (window, crop, marker, control characters)")
+    return finish(ctx, "model_checking",
+                  "crop arithmetic: every (error line length <= 6/9, context line lengths, column, radius in 1..3) checked by TLC against "
+                  "the declarative window / marker contract and replayed as documents (x1 and x3 scale) through the real renderer; reports: "
+                  "generated failing documents in 8 families (reflected unknown field / duplicate key / unknown variant text with C0, DEL, C1, "
+                  "OSC and CSI sequences written as YAML escapes; raw control characters in source lines; long one-line flow mappings; alias "
+                  "errors with use and definition windows; syntax errors at end of input; > 4 KiB lines) x LF / CRLF / lone CR x byte order "
+                  "mark x radii {0, 1, 2, 5, 17, 64, 100000} x snippet on / off x developer / user / custom formatter x str / slice / reader "
+                  "entry points, plus the same error rendered with snippets off and through the miette adapter; every line of every report "
+                  "is checked for control characters, every window against Snippet!WindowVerdict; non-trivial = reports with a cropped line",
+                  ASSUME_COMMON + ["rendered lines are classified from their gutter syntax by the harness (`NN | text`, `| ^`), nothing else "
+                                   "is interpreted there", "TAB and wide (East Asian) characters are not generated on shown lines: the snippet "
+                                   "library expands / widens them, which moves the caret by display width",
+                                   "reflected text contains no line feed (a multi-line label interleaves with the source lines)"])
+
+
 CHECKS = {
     "C02": check_C02,
     "C14": check_C14,
     "C16": check_C16,
+    "C17": check_C17,
     "C15": check_C15,
     "C13": check_C13,
     "C20": check_C20,
